@@ -316,6 +316,9 @@ class Style(object):
         for i, u in enumerate(I.namespaces):
             self.uri[("u", i)] = u
         self.local_decls = local_decls        # declare what an independent element uses on that element
+        # Axis style: independent elements re-declare ONE prefix spelling locally for DIFFERENT namespaces:
+        # (spelling, namespace key of the elements that refer to others, namespace key of the other elements)
+        self.axis = None
 
 
 def esc(s, attr=False):
@@ -328,6 +331,10 @@ def esc(s, attr=False):
 class Writer(object):
     def __init__(self, st, pretty):
         self.st, self.pretty = st, pretty
+        self.ov = {}                # spelling in force inside the independent element being written
+
+    def pfx(self, k):
+        return self.ov.get(k, self.st.p[k])
 
     def attr(self, a, used):
         nskey, local, vs = a
@@ -335,12 +342,12 @@ class Writer(object):
             nm = local
         else:
             used.add(nskey)
-            nm = "%s:%s" % (self.st.p[nskey], local)
+            nm = "%s:%s" % (self.pfx(nskey), local)
         if vs[0] == "s":
             v = vs[1]
         else:
             used.add(vs[1])
-            v = "%s:%s%s" % (self.st.p[vs[1]], vs[2], vs[3])
+            v = "%s:%s%s" % (self.pfx(vs[1]), vs[2], vs[3])
         return '%s="%s"' % (nm, esc(v, True))
 
     def element(self, qname, attrs, content, href_of, used, decls_here=False, extra=""):
@@ -357,7 +364,7 @@ class Writer(object):
                     body = "\n" + body
         decl = ""
         if decls_here:
-            decl = "".join(' xmlns:%s="%s"' % (self.st.p[k], self.st.uri[k]) for k in sorted(inner_used, key=str))
+            decl = "".join(' xmlns:%s="%s"' % (self.pfx(k), self.st.uri[k]) for k in sorted(inner_used, key=str))
         else:
             used |= inner_used
         s = "<%s%s%s%s" % (qname, "".join(" " + p for p in parts), extra, decl)
@@ -461,6 +468,14 @@ class Outline(object):
         return any(b and m in (None, "1") for b, m in zip(self.before, self.marks))
 
 
+def has_refs(c, href_of):
+    """is some element written inside this content a reference"""
+    for k in c.kids:
+        if href_of(k) is not None or has_refs(k.content, href_of):
+            return True
+    return False
+
+
 def write_doc(rng, I, st, root, outline, pretty):
     """-> bytes.  outline None = everything in line (dangling hrefs of the
     `dangling_of` outline are kept: there is nothing to put in their place)."""
@@ -475,7 +490,32 @@ def write_doc(rng, I, st, root, outline, pretty):
         if outline.resp_mark:
             resp_attrs = ' %s:root="%s"' % (st.p["enc"], outline.resp_mark)
             used.add("enc")
-        for (rid, c), nm, mark, bef in zip(outline.defs, outline.names, outline.marks, outline.before):
+        defs, names = list(outline.defs), list(outline.names)
+        kinds = [None] * len(defs)
+        if st.axis and st.local_decls:
+            # which namespace the colliding spelling stands for on each independent element.  Only elements
+            # WITHOUT references inside may use the second namespace, and the first element (in document order)
+            # that declares the spelling uses the first one: then the binding promotePrefixes lifts to the
+            # Envelope is never shadowed on the way up from content that relies on it (the guard of
+            # moved_attributes_keep_their_prefixes); the other bindings stay on their elements and travel
+            # with the moved content.
+            P, k0, k1 = st.axis
+            for i, (rid, c) in enumerate(defs):
+                scratch = set()
+                W.element("x", c.attrs, c, href_of, scratch)
+                if k0 in scratch:
+                    kinds[i] = k0
+                elif k1 in scratch and not has_refs(c, href_of):
+                    kinds[i] = k1
+            seq = [i for i in range(len(defs)) if outline.before[i]] + [i for i in range(len(defs)) if not outline.before[i]]
+            first = next((i for i in seq if kinds[i] is not None), None)
+            if first is not None and kinds[first] == k1:
+                j = next((i for i in seq if kinds[i] == k0), None)
+                if j is not None:
+                    defs[first], defs[j] = defs[j], defs[first]
+                    names[first], names[j] = names[j], names[first]
+                    kinds[first], kinds[j] = kinds[j], kinds[first]
+        for (rid, c), nm, mark, bef, kind in zip(defs, names, outline.marks, outline.before, kinds):
             attrs = [(None, "id", ("s", rid))]
             if mark is not None:
                 attrs.append(("enc", "root", ("s", mark)))
@@ -491,7 +531,9 @@ def write_doc(rng, I, st, root, outline, pretty):
                 attrs = attrs + c.attrs
             else:
                 attrs = c.attrs + attrs
+            W.ov = {kind: st.axis[0]} if kind is not None else {}
             s = W.element(qname, attrs, c, href_of, used, decls_here=st.local_decls)
+            W.ov = {}
             (before if bef else after).append(s)
     resp = "<%s:fResponse%s>%s%s</%s:fResponse>%s" % (
         st.p[("u", 0)], resp_attrs, "\n" if pretty else "", resp_inner, st.p[("u", 0)], "\n" if pretty else "")
@@ -728,6 +770,9 @@ class Runner(object):
             ck.count("with-dangling-href")
         if st_out.local_decls:
             ck.count("prefixes-declared-on-independent-elements")
+        if st_out.axis and doc_out.count(b'xmlns:ns5="') >= 2 and len(set(
+                x.split(b'"')[0] for x in doc_out.split(b'xmlns:ns5="')[1:])) >= 2:
+            ck.count("axis-style-one-prefix-two-namespaces")
         ck.count("result-" + ("ok" if r_out.startswith("(DOk") else r_out))
         return meta
 
@@ -918,6 +963,9 @@ def run(ck):
             st_out = Style(rng, I, rng.random() < 0.4)
             if force_xsi:
                 st_out.p["xsi"] = force_xsi
+            if rng.random() < 0.3:
+                st_out.local_decls = True
+                st_out.axis = ("ns5",) + tuple(rng.sample(["xsd", ("u", 0)], 2))
             marking = (markings or ["marked", "marked", "unmarked-after", "mixed"])[j % len(markings or [0] * 4)]
             if markings is None and rng.random() < 0.04:
                 marking = "unmarked-before"
@@ -944,7 +992,10 @@ def run(ck):
             chosen = set(id(e) for k, e in enumerate(occ) if mask >> k & 1)
             marking = ["marked", "unmarked-after", "mixed"][mask % 3]
             o = Outline(rng, xroot, I, 0.0, marking, decide=lambda e: id(e) in chosen)
-            R.add(client, wsdl, I, xroot, Style(rng, I, False), Style(rng, I, mask % 4 == 1), o, False, "exhaustive")
+            st_x = Style(rng, I, mask % 4 in (1, 3))
+            if mask % 4 == 3:
+                st_x.axis = ("ns5",) + (("xsd", ("u", 0)) if mask % 8 == 3 else (("u", 0), "xsd"))
+            R.add(client, wsdl, I, xroot, Style(rng, I, False), st_x, o, False, "exhaustive")
         ck.exhaustive = False
     except Exception as e:  # noqa
         ck.failing_input("C18:wsdl-load", "the hand-written rpc/encoded WSDL cannot be used: %r" % (e,),
